@@ -455,7 +455,7 @@ Qed.
 Module C10Counterexample.
   Definition kid := mkChild "v1" "things" "Thing" false "".
   Definition cfg : ccfg :=
-    mkCfg "cc" "v1" "Parent" "parents" false true true sel_everything [kid] true true [kid] false false.
+    mkCfg "cc" "v1" "Parent" "parents" false true true sel_everything [kid] true true [kid] false false [["spec"]] [].
   Definition pmeta (extra : list (string * json)) : json :=
     JObj [("apiVersion", JStr "v1"); ("kind", JStr "Parent");
           ("metadata", JObj ([("name", JStr "p"); ("uid", JStr "u1")] ++ extra))].
